@@ -22,7 +22,7 @@ type c20 struct{ base }
 
 func init() {
 	runner.Register(&c20{base{id: "C20", level: "exploration",
-		rule:        "exhaustive: all subsets of <=2 registrations (thorough <=3) from a pool of (table in {tba,tbb}) x (kind in {key, filter, conditional, update}) x (text pool with anagram pairs 'a = :b' / 'b = :a', 'SET x = :y' / 'SET y = :x', prefix pairs, letter-case pairs, surrounding- and interior-whitespace variants) x every request over the same pool x native mode on/off x interpreter installed before/after CreateTable, both adapters. Callbacks are instrumented: each records its identity and returns the OPPOSITE of what the built-in interpreter yields. Oracle: the set of callbacks that ran = {the one registered for exactly this table, kind and text (up to surrounding whitespace; interior whitespace amount: either)} or empty; the operation's outcome = that callback's verdict / mutation; with no matcher the built-in result; with no updater an unsupported-feature error and an untouched item; native mode off: no callback runs. non-trivial = at least one registration differs from the request in exactly one of table / kind / text; distinct by (adapter, registration set, request, mode, order).",
+		rule:        "exhaustive: all subsets of <=2 registrations (thorough <=3) from a pool of (table in {tba,tbb}) x (kind in {key, filter, conditional, update}) x (text pool with anagram pairs 'a = :b' / 'b = :a', 'SET x = :y' / 'SET y = :x', prefix pairs, letter-case pairs, surrounding- and interior-whitespace variants) x every request over the same pool x native mode on/off x interpreter installed before/after CreateTable, both adapters. Callbacks are instrumented: each records its identity and returns the OPPOSITE of what the built-in interpreter yields. Oracle: the set of callbacks that ran = {the one registered for exactly this table, kind and text (up to surrounding whitespace; interior whitespace amount: either)} or empty; the operation's outcome = that callback's verdict / mutation; with no matcher the built-in result; with no updater an unsupported-feature error and an untouched item; native mode off: no callback runs. Plus parallel cases: 2-8 goroutines, each with its OWN client and native interpreter holding anagram / whitespace variants of the registrations of the others, dispatch 40 requests each at the same time and check their own dispatch with the same oracle (shared state between interpreter instances). non-trivial = at least one registration differs from the request in exactly one of table / kind / text; distinct by (adapter, registration set, request, mode, order).",
 		assumptions: commonAssumptions}})
 }
 
@@ -102,9 +102,70 @@ const c20Block = 8
 func (p *c20) NumCases(tier string) int {
 	n := (len(p.subsets(tier)) + c20Block - 1) / c20Block
 	if tier == "thorough" {
-		return n * 2
+		return n*2 + 200
 	}
-	return n
+	return n + 24
+}
+
+// parallelClients: 2-8 goroutines, each with its OWN client and its own native interpreter, dispatch at the
+// same time (tests that run with t.Parallel() each have their own fake client). The registrations of the
+// goroutines are anagrams / whitespace variants of one another, so a lookup that goes through state shared
+// between interpreter instances picks another goroutine's callback or none. Every goroutine checks its own
+// dispatch with the sequential oracle of runSeq.
+func (p *c20) parallelClients(x *res, idx int, ctx *runner.Ctx) {
+	r := mon.Rng(ctx.Seed, "C20P", idx)
+	g := []int{2, 4, 8}[idx%3]
+	rounds := 40
+	subs := p.subsets(ctx.Tier)
+	type plan struct {
+		adapter string
+		regs    []int
+		reqs    [][]c20Req
+	}
+	plans := make([]plan, g)
+	for i := range plans {
+		pl := plan{adapter: adapt.Adapters[(idx+i)%2], regs: subs[1+r.Intn(len(subs)-1)]}
+		for k := 0; k < rounds; k++ {
+			// mostly requests that one of the goroutine's registrations answers, padded with whitespace
+			var rq c20Req
+			if len(pl.regs) > 0 && r.Intn(3) != 0 {
+				reg := c20PoolCache[mon.Pick(r, pl.regs)]
+				rq = c20Req{reg.table, reg.kind, mon.Pick(r, []string{"", " ", "  "}) + reg.text + mon.Pick(r, []string{"", " "})}
+			} else {
+				rq = mon.Pick(r, c20ReqCache)
+			}
+			pl.reqs = append(pl.reqs, []c20Req{rq})
+		}
+		plans[i] = pl
+	}
+	results := make([]*res, g)
+	ok := parallel(g, func(i int) {
+		xi := newRes()
+		results[i] = xi
+		defer func() {
+			if rec := recover(); rec != nil {
+				xi.viol("runtime-panic", "parallel-clients", fmt.Sprintf("dispatch on an own client panicked while %d other clients were dispatching: %v", g-1, rec), nil)
+			}
+		}()
+		quiet := &runner.Ctx{Tier: ctx.Tier, Seed: ctx.Seed, Case: ctx.Case, Trace: func(string, ...interface{}) {}}
+		for _, rq := range plans[i].reqs {
+			p.runSeq(xi, plans[i].adapter, plans[i].regs, rq, true, i%2 == 0, quiet)
+		}
+	})
+	if !ok {
+		x.viol("deadlock", "parallel-clients", fmt.Sprintf("%d goroutines with their own clients did not finish", g), nil)
+		return
+	}
+	for _, xi := range results {
+		if xi != nil {
+			for vi := range xi.r.Violations {
+				xi.r.Violations[vi].Rule = "parallel:" + xi.r.Violations[vi].Rule
+			}
+			x.merge(xi)
+		}
+	}
+	x.r.Counters["parallel_client_dispatches"] += g * rounds
+	x.fp(true, "parallel|%d|%d", g, idx)
 }
 
 func normSurround(s string) string { return strings.TrimSpace(s) }
@@ -371,6 +432,14 @@ func (p *c20) RunCase(ctx *runner.Ctx) runner.CaseResult {
 	x := newRes()
 	subs := p.subsets(ctx.Tier)
 	nblocks := (len(subs) + c20Block - 1) / c20Block
+	seqCases := nblocks
+	if ctx.Tier == "thorough" {
+		seqCases = nblocks * 2
+	}
+	if ctx.Case >= seqCases {
+		p.parallelClients(x, ctx.Case-seqCases, ctx)
+		return x.r
+	}
 	block := ctx.Case % nblocks
 	variant := ctx.Case / nblocks
 	for si := block * c20Block; si < (block+1)*c20Block && si < len(subs); si++ {
